@@ -127,15 +127,20 @@ class Serializer:
         except SignIsMissingError:
             return default
 
-        try:
-            value = self._decode(value)
-        except self._pickler.UnpicklingError:
-            pass
-        except AttributeError:
-            return default
+        if not self._is_custom_encoded(value):
+            try:
+                value = self._decode(value)
+            except self._pickler.UnpicklingError:
+                pass
+            except AttributeError:
+                return default
         if isinstance(value, bytes):
             return await self._custom_decode(backend, key, value, default)
         return value
+
+    def _is_custom_encoded(self, value: bytes) -> bool:
+        value_type, separator, _ = value.partition(b":")
+        return bool(separator) and value_type in self._type_mapping
 
     def _decode(self, value: bytes) -> Value:
         value = self._pickler.loads(value)
